@@ -394,6 +394,35 @@ fn experiment(h: &mut Hist, ctx: &mut Ctx, class: Bad) {
         return;
     };
     let bad_hash = parse::parse_header(&bad).map(|x| x.0);
+    // a body-invalid element under a sound, connected header: in half of the cases that header
+    // was announced by an earlier response (the way `next` does); the body is judged all the same
+    if matches!(class, Bad::BadMerkle | Bad::NoCoinbase | Bad::NoTransactions | Bad::DuplicatedTx) && h.rng.chance(1, 2) {
+        if let Some((hash, parent, _, time, _)) = parse::parse_header(&bad) {
+            let parent_delivered = h.model.is_live(&parent) && prefix.iter().all(|(_, ph)| *ph != parent);
+            if parent_delivered {
+                let header = bad[..80].to_vec();
+                let height = h.model.blocks[&parent].height + 1;
+                h.hidden.push(crate::hist::Hidden { hash, parent, time, height, header: header.clone(), block: None });
+                world::set_replies(vec![world::reply_complete(vec![], vec![header.clone()])]);
+                let stored = |hash: &H| world::bookkeeping().next_by_hash.iter().any(|(b, _, _)| b.to_vec() == hash.to_vec());
+                for _ in 0..8 {
+                    if stored(&hash) {
+                        break;
+                    }
+                    let _ = world::heartbeat();
+                }
+                h.note_announced(&[header]);
+                h.log.push(format!("header {} announced before its (invalid) body is offered", short(&hash)));
+                if stored(&hash) {
+                    ctx.cov.count("c10_bad_body_under_announced_header");
+                } else {
+                    ctx.inconclusive(format!("a sound header announced ahead of its body was not stored (class {:?})", class));
+                    h.desync = Some("announcement not stored".into());
+                    return;
+                }
+            }
+        }
+    }
     elements.push(bad.clone());
     elements.extend(suffix_elems);
     let (_r0, d0, i0) = world::error_counters();
